@@ -88,8 +88,13 @@ def body_direct(flav_name, cname, target):
             holder["raw"] = bytes(Subroutine(instructions=[ins], app_id=inp.bv("app_id", 16, False)))
 
         r = _raises(run)
-        return [Ob("rejected", r, {"entry": "direct", "kind": mk.bad_kind or leaf_kinds(kinds)[target]},
-                   info={"cls": cname, "flavour": flav_name})]
+        obs = [Ob("rejected", r, {"entry": "direct", "kind": mk.bad_kind or leaf_kinds(kinds)[target]},
+                  info={"cls": cname, "flavour": flav_name})]
+        if r:
+            # a refusal must not depend on it being the first attempt (state kept by the encoder between calls)
+            obs.append(Ob("rejected_again", _raises(run), {"entry": "direct_second_attempt", "kind": mk.bad_kind or leaf_kinds(kinds)[target]},
+                          info={"cls": cname, "flavour": flav_name}))
+        return obs
     return body
 
 
@@ -145,7 +150,7 @@ def body_assemble(case):
     return body
 
 
-def body_instantiate(which):
+def body_instantiate(which, spec_prior=False):
     def body(inp):
         add_bv_inputs(inp)
         if codec.MODEL:
@@ -157,13 +162,22 @@ def body_instantiate(which):
             proto = ProtoSubroutine(commands=[ICmd(GenericInstr.ROT_Y, operands=[Register(BANKS[2], 0), Template("n"), 2])],
                                     app_id=0, netqasm_version=(0, 0))
             sub = assemble_subroutine(proto)
+            if spec_prior:
+                # the same object was instantiated and encoded with valid values before (what a cached header / cached bytes would keep)
+                sub2 = assemble_subroutine(ProtoSubroutine(commands=[ICmd(GenericInstr.ROT_Y, operands=[Register(BANKS[2], 0), 4, 2])], app_id=0, netqasm_version=(0, 0)))
+                sub2.instantiate(2, {})
+                bytes(sub2)
+                if which == "app_id":
+                    sub2.instantiate(v, {})
+                    bytes(sub2)
+                    return
             if which == "app_id":
                 sub.instantiate(v, {"n": 3})
             else:
                 sub.instantiate(1, {"n": v})
             bytes(sub)
 
-        return [Ob("rejected", _raises(run), {"entry": "instantiate", "kind": kind})]
+        return [Ob("rejected", _raises(run), {"entry": "instantiate" + ("_after_valid_encoding" if spec_prior else ""), "kind": kind})]
     return body
 
 
@@ -212,7 +226,7 @@ def body_from_key(key):
     if k == "assemble":
         return body_assemble(key[1])
     if k == "instantiate":
-        return body_instantiate(key[1])
+        return body_instantiate(key[1], spec_prior=len(key) > 2)
     if k == "sdk":
         return body_sdk(key[1])
     raise KeyError(key)
@@ -264,6 +278,7 @@ def main(tier, seed):
     keys += [("header", w) for w in ("app_id", "version0", "version1")]
     keys += [("assemble", c) for c in _ir_cases()]
     keys += [("instantiate", w) for w in ("template", "app_id")]
+    keys += [("instantiate", "app_id", "after_valid_encoding")]
     keys += [("sdk", c) for c in ("rot_n", "rot_d", "array_init", "app_id")]
     for r in pmap(work, keys):
         rep.merge_worker("reject", r)
